@@ -148,9 +148,9 @@ func genC08(r *rand.Rand, w *W) [][]string {
 			}
 			ops = append(ops, append([]string{"handle", "r", p, "h" + itoa(hid)}, append(list(), list(ms...)...)...))
 		case 3:
-			ops = append(ops, append([]string{"remove", "r", p}, list(pick(r, []string{"GET", "HEAD", "OPTIONS", "POST", ""}))...))
+			ops = append(ops, append([]string{"remove", "r", p}, list(pick(r, []string{"GET", "HEAD", "OPTIONS", "POST", "", "get", "head", "options", "Get", "post"}))...))
 		case 4:
-			ops = append(ops, append([]string{"remove", "r", p}, list(pick(r, []string{"GET", "POST"}), pick(r, []string{"HEAD", "OPTIONS", "PUT"}))...))
+			ops = append(ops, append([]string{"remove", "r", p}, list(pick(r, []string{"GET", "POST", "get"}), pick(r, []string{"HEAD", "OPTIONS", "PUT", "head", "options"}))...))
 		default:
 			ops = append(ops, append([]string{"remove", "r", p}, list()...))
 		}
